@@ -110,8 +110,10 @@ LAWS = [
     Law("permutations", "Ṗ", 1, lambda xs: [list(p) for p in itertools.permutations(xs)], cmp="multiset"),
     Law("counts", "Ċ", 1, lambda xs: [[v, xs.count(v)] for v in _uniq(xs)]),
     Law("group-consecutive", "Ġ", 1, _groups),
-    Law("grade-up", "⇧", 1, lambda xs: sorted(range(len(xs)), key=lambda i: xs[i])),
-    Law("grade-down", "⇩", 1, lambda xs: sorted(range(len(xs)), key=lambda i: -xs[i])),
+    # grading: any permutation of the indices that orders the items is a grading (the documentation says
+    # "indices of elements to sort in ascending / descending order" and does not fix the order of ties)
+    Law("grade-up", "⇧", 1, lambda xs: sorted(range(len(xs)), key=lambda i: xs[i]), cmp="grade-asc"),
+    Law("grade-down", "⇩", 1, lambda xs: sorted(range(len(xs)), key=lambda i: -xs[i]), cmp="grade-desc"),
     Law("length", "L", 1, lambda xs: len(xs)),
     Law("head", "h", 1, lambda xs: xs[0], pre=lambda xs: len(xs) > 0),
     Law("tail", "t", 1, lambda xs: xs[-1], pre=lambda xs: len(xs) > 0),
@@ -231,6 +233,15 @@ def check(name, args, lazy):
         for g, w in zip(got, wantn):
             if law.cmp == "multiset":
                 ok = ok and isinstance(g, list) and len(g) == len(w) and _ms(g) == _ms(w)
+            elif law.cmp in ("grade-asc", "grade-desc"):
+                xs_ = list(call[0])
+                try:
+                    idx = [int(v) for v in g]
+                    vals = [xs_[i] for i in idx]
+                    ok = ok and sorted(idx) == list(range(len(xs_))) and all(
+                        (a <= b) if law.cmp == "grade-asc" else (a >= b) for a, b in zip(vals, vals[1:]))
+                except Exception:  # noqa: BLE001
+                    ok = False
             elif law.cmp == "set":
                 ok = ok and isinstance(g, list) and set(map(repr, g)) == set(map(repr, w)) and len(g) == len(w)
             else:
